@@ -5,6 +5,7 @@ import (
 	"fmt"
 	"runtime"
 	"sync"
+	"sync/atomic"
 	"time"
 
 	"github.com/dtn7/dtn7-go/pkg/bpv7"
@@ -29,6 +30,11 @@ type TransferResult struct {
 	Delivered [][]byte          // encodings of bundles handed up by the receiver(s), in order
 	RecvErrs  []string
 	Hang      string
+	// the follow-up transfer of Faulty
+	Next     []Seg
+	NextData []byte
+	NextErr  string
+	NextRan  bool
 }
 
 const stepWatchdog = 10 * time.Second
@@ -175,7 +181,14 @@ func OneWay(b bpv7.Bundle, m uint64) (res TransferResult) {
 //	mode "close":  acknowledges k segments, then the session is closed (manager stopped)
 //	mode "short":  acknowledges every segment, but the k-th and later ones with a length one byte short
 //	mode "zero":   acknowledges with length 0 from the k-th segment on
-func Faulty(b bpv7.Bundle, m uint64, mode string, k int) (res TransferResult) {
+// Faulty sends b through a TransferManager whose peer (the harness) misbehaves in the given way at segment k. If a
+// further bundle is given it is sent afterwards through the same manager with a well-behaved peer: res.Next holds
+// its segments and res.NextErr the result (state must not leak from the failed transfer into the next one).
+func Faulty(b bpv7.Bundle, m uint64, mode string, k int, next ...bpv7.Bundle) (res TransferResult) {
+	var progress int64
+	total := int64((len(ser(&b)) + int(m) - 1) / int(m)) // segments of the first transfer
+	var healthy int32
+	acked2 := 0
 	vtime.SetVirtual(vtime.Epoch)
 	res.Data = map[uint64][]byte{}
 	a := newPeer(m)
@@ -193,7 +206,29 @@ func Faulty(b bpv7.Bundle, m uint64, mode string, k int) (res TransferResult) {
 				if !ok {
 					continue
 				}
+				if atomic.LoadInt32(&healthy) != 0 {
+					// second transfer: a well-behaved peer. Segments of the refused / abandoned first transfer that
+					// were still in flight are not acknowledged (the sender has forgotten that transfer and treats an
+					// acknowledgement for it as a protocol violation that ends the session).
+					if len(res.Segs) > 0 && s.TransferId == res.Segs[0].Tid {
+						continue
+					}
+					if s.Flags&msgs.SegmentStart != 0 {
+						acked2 = 0
+					}
+					res.Next = append(res.Next, Seg{s.TransferId, s.Flags&msgs.SegmentStart != 0, s.Flags&msgs.SegmentEnd != 0, len(s.Data)})
+					res.NextData = append(res.NextData, s.Data...)
+					acked2 += len(s.Data)
+					atomic.AddInt64(&progress, 1)
+					select {
+					case a.in <- msgs.NewDataAcknowledgementMessage(s.Flags, s.TransferId, uint64(acked2)):
+					case <-stop:
+						return
+					}
+					continue
+				}
 				res.Segs = append(res.Segs, Seg{s.TransferId, s.Flags&msgs.SegmentStart != 0, s.Flags&msgs.SegmentEnd != 0, len(s.Data)})
+				atomic.AddInt64(&progress, 1)
 				acked += len(s.Data)
 				var reply msgs.Message
 				switch {
@@ -229,6 +264,7 @@ func Faulty(b bpv7.Bundle, m uint64, mode string, k int) (res TransferResult) {
 	go func() { sendErr = a.tm.Send(b); close(ret) }()
 	// the acknowledgement timeout runs on the virtual clock: keep advancing it until Send returns
 	deadline := time.Now().Add(stepWatchdog)
+	lastSegs, lastProgress := int64(-1), time.Now()
 	for returned := false; !returned; {
 		select {
 		case <-ret:
@@ -241,13 +277,48 @@ func Faulty(b bpv7.Bundle, m uint64, mode string, k int) (res TransferResult) {
 			}
 			runtime.Gosched()
 			time.Sleep(200 * time.Microsecond)
-			vtime.Advance(11 * time.Second)
+			// the acknowledgement timeout must not race with the exchange itself: it expires only after the
+			// transfer has made no progress for a while of real time
+			if n := atomic.LoadInt64(&progress); n != lastSegs {
+				lastSegs, lastProgress = n, time.Now()
+			} else if n >= total && time.Since(lastProgress) > time.Millisecond || time.Since(lastProgress) > 60*time.Millisecond {
+				// every segment of the transfer has been seen (and answered as scripted): nothing but the timeout
+				// is left. The long quiet period covers senders that stop early without returning.
+				vtime.Advance(11 * time.Second)
+				lastProgress = time.Now()
+			}
 		}
 	}
 	if sendErr != nil {
 		res.SendErr = []string{sendErr.Error()}
 	} else {
 		res.SendErr = []string{""}
+	}
+	if len(next) > 0 && mode != "close" {
+		atomic.StoreInt32(&healthy, 1)
+		ret2 := make(chan error, 1)
+		go func() { ret2 <- a.tm.Send(next[0]) }()
+		d2 := time.Now().Add(stepWatchdog)
+	wait2:
+		for {
+			select {
+			case e := <-ret2:
+				if e != nil {
+					res.NextErr = e.Error()
+				}
+				res.NextRan = true
+				break wait2
+			default:
+				if time.Now().After(d2) {
+					// every segment is acknowledged at once, so nothing has to time out: the virtual clock stands
+					// still and only this real-time watchdog ends a transfer that does not complete
+					res.NextErr = "the transfer did not complete although the peer acknowledged every segment"
+					res.NextRan = true
+					break wait2
+				}
+				time.Sleep(200 * time.Microsecond)
+			}
+		}
 	}
 	close(stop)
 	<-done
